@@ -5,6 +5,30 @@ Import ListNotations.
 Require Import Pyrefact.MiniPyModel.
 
 (* ------------------------------------------------------------------------------------------ *)
+(* environments *)
+Lemma get_upd_same e x v : get (upd e x v) x = v.
+Proof.
+  unfold get. revert e. induction x as [|x IH]; intros [|a tl]; simpl; auto.
+Qed.
+Lemma get_nil x : get [] x = dflt.
+Proof. unfold get. destruct x; reflexivity. Qed.
+Lemma get_upd_other e x y v : y <> x -> get (upd e x v) y = get e y.
+Proof.
+  unfold get. revert e y. induction x as [|x IH]; intros [|a tl] [|y] H; simpl; try congruence; auto.
+  - destruct y; reflexivity.
+  - rewrite IH by congruence. destruct y; reflexivity.
+Qed.
+Lemma upd_upd_same e x v w : upd (upd e x v) x w = upd e x w.
+Proof.
+  revert e. induction x as [|x IH]; intros [|a tl]; simpl; auto; f_equal; apply IH.
+Qed.
+Lemma upd_comm e x y v w : x <> y -> upd (upd e x v) y w = upd (upd e y w) x v.
+Proof.
+  revert e y. induction x as [|x IH]; intros [|a tl] [|y] H; simpl; try congruence; auto;
+    f_equal; apply IH; congruence.
+Qed.
+
+(* ------------------------------------------------------------------------------------------ *)
 (* fuel monotonicity *)
 
 Lemma step1_mono ex ex' lp lp' o st s r :
@@ -61,7 +85,7 @@ Qed.
 Definition runs1 (o : oracle) (st : state) (s : stmt) (r : res) : Prop :=
   match s with
   | SPass => r = (Normal, st)
-  | SEv i rd => r = (Normal, emit (EvCall i (map (s_env st) rd)) st)
+  | SEv i rd => r = (Normal, emit (EvCall i (map (get (s_env st)) rd)) st)
   | SAssign x e => r = (Normal, set_var x (fst (eval_rexpr o st e)) (snd (eval_rexpr o st e)))
   | SReturn e => r = (Ret (fst (eval_rexpr o st e)), snd (eval_rexpr o st e))
   | SRaise => r = (Exc, st)
